@@ -3,11 +3,12 @@ CONSTANTS
   MaxH = 10
   Page = 3
   TSet = {2, 3, 4, 5, 6, 7, 8}
+  RSet = {}
   RUB = TRUE
   MTB = 1
   GCP = 1
   MaxCrash = 2
   MaxReset = 0
   Dev = {}
-INVARIANTS AbsAnswers AbsTip AbsHeights AbsReset CanRestart NoDead MemCanonical RestartTransparent DiskPages
+INVARIANTS AbsAnswers AbsTip AbsHeights AbsReset CanRestart NoDead MemCanonical RestartTransparent DiskPages KeepsList
 CHECK_DEADLOCK FALSE
